@@ -4,8 +4,21 @@ from lib import b2f
 
 VERIF = os.path.dirname(os.path.dirname(os.path.abspath(__file__)))
 BUILD = os.path.join(VERIF, '.build')
-HARNESS = os.path.join(BUILD, 'harness')
-HARNESS_RACE = os.path.join(BUILD, 'harness-race')
+# one binary per check process: concurrent checks (different properties, seeds or tiers) must not replace each
+# other's harness while it runs; the files are removed when the process ends
+HARNESS = os.path.join(BUILD, 'harness-%d' % os.getpid())
+HARNESS_RACE = os.path.join(BUILD, 'harness-race-%d' % os.getpid())
+import atexit
+def _cleanup():
+    # only the process that created the names removes them (worker processes share the module globals)
+    if os.getpid() == _OWNER:
+        for f in (HARNESS, HARNESS_RACE):
+            try:
+                os.remove(f)
+            except OSError:
+                pass
+_OWNER = os.getpid()
+atexit.register(_cleanup)
 DRIVER = os.path.join(VERIF, 'lean', '.lake', 'build', 'bin', 'qeep-driver')
 GOENV = dict(os.environ, GOFLAGS='-mod=mod', GOPROXY='off', GOSUMDB='off', GOTOOLCHAIN='local')
 
